@@ -99,6 +99,7 @@ def tokenizer_table(ctx: Ctx, rule: str) -> None:
         N.M("VARIN", "variant in available_restrictions"),
         N.M("UNKNOWNVM", "vm_name not in available_vms"),
         N.M("HASRESTR", "nets_str != ''"),
+        N.M("HASRESTR", "with_restricted_nets"),  # either spelling of "a nets restriction was given"; which one is right is rule C11.1o
         N.M("EXPL", "with_explicit_nets"),
     ]
 
@@ -133,7 +134,8 @@ def tokenizer_table(ctx: Ctx, rule: str) -> None:
     def outcome(view: PathView, val, free):
         p = view.path
         term = "raise:" + (PathEnum._raised_name(p.exit_node) or "?") if p.exit == "raise" else "next"
-        return (term, _effects(view))
+        # the bookkeeping flag of the conflict test is the subject of C11.1o, not an effect of the argument
+        return (term, frozenset(e for e in _effects(view) if not e.startswith("with_restricted_nets")))
 
     table_rule(ctx, rule, PFC, views, spec, outcome,
                construct="per argument: malformed -> ValueError; only/no -> tests_str accumulates; (only|no)_nets -> nets restriction (rejected after explicit nets); "
@@ -435,8 +437,43 @@ def error_handling(ctx: Ctx, rule: str) -> None:
                    "" if ok else "a rejected command line is swallowed by the plugin")
 
 
+def nets_conflict_symmetric(ctx: Ctx, rule: str) -> None:
+    """`nets=` and an (only|no)_nets restriction exclude each other "in any order" (the code's own comment); an empty restriction value is a
+    restriction too (it is explicitly supported), so the test in the `nets` branch must be on the fact that a restriction was given, not on the
+    accumulated restriction text being non-empty."""
+    fref = "cmd_parser.py:params_from_cmd"
+    fn = ctx.repo.func(fref)
+    ctx.touch(fref)
+    # the raise guarded in the `nets` branch
+    nets_ifs = [i for i in ast.walk(fn.node) if isinstance(i, ast.If) and ast.unparse(i.test) in ("key == 'nets'",)]
+    why = ""
+    if len(nets_ifs) != 1:
+        why = "the nets= branch was not found"
+    else:
+        guards = [g for g in nets_ifs[0].body if isinstance(g, ast.If) and any(isinstance(x, ast.Raise) for x in g.body)]
+        if len(guards) != 1:
+            why = "the nets= branch no longer rejects a combination with a nets restriction"
+        else:
+            t = guards[0].test
+            flag = t.id if isinstance(t, ast.Name) else None
+            if flag is None:
+                why = (f"`nets=` is rejected after a nets restriction only if `{ast.unparse(t)}`: `only_nets= nets=net1` (empty restriction first) is accepted and the restriction "
+                       "silently overridden, while `nets=net1 only_nets=` is rejected - the same arguments, another order")
+            else:
+                # the flag is set wherever the restriction branch records a restriction
+                sets = [s_ for s_ in ast.walk(fn.node) if isinstance(s_, ast.Assign) and any(isinstance(x, ast.Name) and x.id == flag for t_ in s_.targets for x in ast.walk(t_))
+                        and isinstance(s_.value, ast.Constant) and s_.value.value is True]
+                restr_branch = [i for i in ast.walk(fn.node) if isinstance(i, ast.If) and "_nets" in ast.unparse(i.test) and "fullmatch" in ast.unparse(i.test)]
+                ok = len(restr_branch) == 1 and any(any(s_ is x for x in ast.walk(restr_branch[0])) and s_ in restr_branch[0].body for s_ in sets)
+                if not ok:
+                    why = f"the flag `{flag}` tested in the nets= branch is not set unconditionally where a nets restriction is recorded"
+    ctx.record(rule, "SIBLING", fref, "both orders of `nets=` and an (only|no)_nets restriction are rejected alike: each branch tests a flag the other sets unconditionally "
+               "(an empty restriction value counts)", not why, {}, why)
+
+
 def run(ctx: Ctx) -> None:
     ctx.call(tokenizer_table, "1")
+    ctx.call(nets_conflict_symmetric, "1o")
     ctx.call(defaults, "2")
     ctx.call(step_order, "3")
     from ..kinds import signature_defaults
